@@ -27,7 +27,7 @@ def tla_set(xs):
     return "{" + ", ".join(json.dumps(x) if isinstance(x, str) else str(x) for x in xs) + "}"
 
 
-def gen_cfg(steps=(2,), leads=(0,), tbs=(0,), ginds=(0,), rsteps=(0,), edits=1, acts=("scalar",), focus=("expr",), sim=False, clean=False, gi0=0, rs0=0, var=0):
+def gen_cfg(steps=(2,), leads=(0,), tbs=(0,), ginds=(0,), rsteps=(0,), edits=1, acts=("scalar",), focus=("expr",), sim=False, clean=False, gi0=0, rs0=0, var=0, replay=""):
     return """SPECIFICATION Spec
 CONSTANTS
   Steps = %s
@@ -43,10 +43,11 @@ CONSTANTS
   Focus = %s
   Sim = %s
   Clean = %s
+  ReplayFile = "%s"
 INVARIANTS Inv_Consistent
 CHECK_DEADLOCK FALSE
 """ % (tla_set(steps), tla_set(leads), tla_set(tbs), tla_set(ginds), tla_set(rsteps), gi0, rs0, var, edits, tla_set(acts),
-       tla_set(focus), "TRUE" if sim else "FALSE", "TRUE" if clean else "FALSE")
+       tla_set(focus), "TRUE" if sim else "FALSE", "TRUE" if clean else "FALSE", replay)
 
 
 def build_vh_overlay(ctx):
@@ -100,7 +101,7 @@ def run_gen(ctx, jobs, par=6):
                 c["part"] = j["tag"]
                 cases.append(c)
                 new += 1
-            stats.append({"tag": j["tag"], "exhaustive": not j.get("simulate"), "states": res["distinct"] or res["generated"],
+            stats.append({"tag": j["tag"], "exhaustive": not j.get("simulate"), "states": res["distinct"] if not j.get("simulate") else len(got),
                           "printed": len(got), "new_cases": new})
     return cases, stats
 
@@ -200,7 +201,8 @@ def jobs_for(ctx):
 
 def c06_usable(c):
     # C06 judges positions of the fields pint finds; layouts whose wrapper has a sequence level belong to C19
-    return not any(lv["seq"] for lv in c["lay"]["wrap"]["levels"])
+    # (sequence levels, sibling keys holding rule lists of their own)
+    return not any(lv["seq"] or lv["sl"] for lv in c["lay"]["wrap"]["levels"])
 
 
 def run(ctx, cases_override=None):
@@ -274,7 +276,18 @@ def run(ctx, cases_override=None):
     ], drift=drift)
 
 
-def replay(ctx, path):
+def render_replay(ctx, path):
+    """Replay: TLC renders the stored layout again (the stored lines may predate a change of the rendering)."""
     v = json.load(open(path))
-    c = dict(v["case"])
-    return run(ctx, cases_override=[c])
+    ctx._spec_copy()
+    name = "layout_replay.cfg"
+    res = ctx.tlc("LayoutGen", name, workers=1, timeout=600, heap="2g", tag="replay",
+                  files={name: gen_cfg(edits=0, acts=(), focus=(), replay="replay_lay.json"), "replay_lay.json": json.dumps(v["case"]["lay"])})
+    got = [x[0] for x in prints(res, "CASE")]
+    if len(got) != 1:
+        raise MachineryError("replay: TLC rendered %d cases" % len(got))
+    return got
+
+
+def replay(ctx, path):
+    return run(ctx, cases_override=render_replay(ctx, path))
